@@ -439,6 +439,81 @@ def ast_register_count():
     return n
 
 
+def cache_key_form(U):
+    """translate the expression used as `self._cache[...]` key in PartialDispatcher.partial_call
+    (AST of funsor/registry.py, cross-checked with the live function's source) into a KeyForm"""
+    import ast
+    import inspect
+    import textwrap
+    src_file = (REPO / "funsor" / "registry.py").read_text()
+    tree = ast.parse(src_file)
+    fn = None
+    for node in ast.walk(tree):
+        if isinstance(node, ast.ClassDef) and node.name == "PartialDispatcher":
+            for b in node.body:
+                if isinstance(b, ast.FunctionDef) and b.name == "partial_call":
+                    fn = b
+    if fn is None:
+        return dict(form=".other", source="<partial_call not found>", same=False, miss=False)
+    live = ast.parse(textwrap.dedent(inspect.getsource(PartialDispatcher.partial_call))).body[0]
+    def nodoc(f):
+        body = f.body[1:] if (f.body and isinstance(f.body[0], ast.Expr) and isinstance(f.body[0].value, ast.Constant)) else f.body
+        return [ast.dump(b) for b in body]
+    live_same = nodoc(live) == nodoc(fn)
+    loads, stores = [], []
+    for node in ast.walk(fn):
+        if (isinstance(node, ast.Subscript) and isinstance(node.value, ast.Attribute) and node.value.attr == "_cache"):
+            (stores if isinstance(node.ctx, ast.Store) else loads).append(ast.dump(node.slice))
+    same = bool(loads) and bool(stores) and len(set(loads + stores)) == 1 and live_same
+    keyname = None
+    for node in ast.walk(fn):
+        if (isinstance(node, ast.Subscript) and isinstance(node.value, ast.Attribute) and node.value.attr == "_cache"
+                and isinstance(node.slice, ast.Name)):
+            keyname = node.slice.id
+    assigns = {}
+    for node in ast.walk(fn):
+        if isinstance(node, ast.Assign) and len(node.targets) == 1 and isinstance(node.targets[0], ast.Name):
+            assigns.setdefault(node.targets[0].id, []).append(node.value)
+    canon_deep = ast.dump(ast.parse("tuple(map(typing_wrap, map(deep_type, args)))").body[0].value)
+    # what a miss dispatches on
+    miss = False
+    for node in ast.walk(fn):
+        if (isinstance(node, ast.Call) and isinstance(node.func, ast.Attribute) and node.func.attr == "dispatch"
+                and len(node.args) == 1 and isinstance(node.args[0], ast.Starred) and isinstance(node.args[0].value, ast.Name)):
+            vs = assigns.get(node.args[0].value.id, [])
+            miss = len(vs) == 1 and ast.dump(vs[0]) == canon_deep
+    form, source = ".other", "<no single key expression>"
+    vs = assigns.get(keyname, []) if keyname else []
+    if len(vs) == 1:
+        e = vs[0]
+        source = ast.unparse(e)
+        if ast.dump(e) == canon_deep:
+            form = ".deepTypes"
+        else:
+            # tuple(typing_wrap(C2 if isinstance(arg, C1) else deep_type(arg)) for arg in args)
+            try:
+                gen = e.args[0]
+                assert isinstance(e.func, ast.Name) and e.func.id == "tuple" and isinstance(gen, ast.GeneratorExp)
+                assert len(gen.generators) == 1 and ast.unparse(gen.generators[0].iter) == "args"
+                var = gen.generators[0].target.id
+                call = gen.elt
+                assert ast.unparse(call.func) == "typing_wrap" and len(call.args) == 1
+                cases = []
+                cur = call.args[0]
+                while isinstance(cur, ast.IfExp):
+                    t = cur.test
+                    assert ast.unparse(t.func) == "isinstance" and ast.unparse(t.args[0]) == var
+                    c1 = eval(ast.unparse(t.args[1]), vars(sys.modules["funsor.registry"]) | vars(__import__("builtins")))
+                    c2 = eval(ast.unparse(cur.body), vars(sys.modules["funsor.registry"]) | vars(__import__("builtins")))
+                    cases.append((U.ids[c1], U.ids[c2]))
+                    cur = cur.orelse
+                assert ast.unparse(cur) == f"deep_type({var})"
+                form = ".perArg [" + ", ".join(f"({a}, {b})" for a, b in cases) + "]"
+            except Exception:
+                form = ".other"
+    return dict(form=form, source=source, same=same, miss=miss)
+
+
 _STATE = {}
 
 
@@ -480,11 +555,23 @@ def extract(ctx):
     r.append("def dispatchers : List DTab :=\n  [" + ", ".join(names) + "]\n")
     r.append("end FV.Gen.C16\n")
     ch2 = write_if_changed(GEN / "C16Reg.lean", "\n".join(r))
+    kf_ = cache_key_form(U)
+    k = [hdr, "import FunsorVerif.Model.C16\nnamespace FV.Gen.C16\nopen FV.C16\n"]
+    k.append("/-- source of the cache key in PartialDispatcher.partial_call: `" + kf_["source"].replace("-/", "- /") + "` -/")
+    k.append(f"def cacheKeyForm : KeyForm := {kf_['form']}")
+    k.append("def cacheKeySource : String := \"" + kf_["source"].replace("\\", "/").replace('"', "'") + "\"")
+    k.append("/-- the lookup `self._cache[k]` and the store `self._cache[k] = func` use the same expression -/")
+    k.append(f"def cacheLookupStoreSameKey : Bool := {'true' if kf_['same'] else 'false'}")
+    k.append("/-- a miss is resolved by `self.dispatch(*types)` with `types = tuple(map(typing_wrap, map(deep_type, args)))` -/")
+    k.append(f"def cacheMissUsesDeepTypes : Bool := {'true' if kf_['miss'] else 'false'}\n")
+    k.append("end FV.Gen.C16\n")
+    ch3 = write_if_changed(GEN / "C16Key.lean", "\n".join(k))
+    ctx.extra["cache_key"] = kf_
     ctx.extra["extract"] = dict(leaves=len(U.names), dispatchers=len(D.items),
                                 signatures=sum(len(it["sigs"]) for it in D.items),
                                 register_decorators_in_source=ast_register_count(),
                                 dropped=U.dropped, unsupported=D.unsupported,
-                                rewritten=[ch1, ch2])
+                                rewritten=[ch1, ch2, ch3])
     if D.unsupported:
         ctx.assumptions.append(f"{len(D.unsupported)} dispatcher(s) use type expressions outside the model: {D.unsupported[:3]}")
 
@@ -2083,6 +2170,194 @@ def part_supercedes(ctx, U, D):
               str(not md_conflict.supercedes(a, b) and not md_conflict.supercedes(b, a)))
 
 
+# ----------------------------------------------------------------------------------------
+# throw-away registries: patterns that differ only INSIDE a container, all first-use orders
+# ----------------------------------------------------------------------------------------
+
+def pysrc_value(U, tr):
+    """python source of a value whose deep_type is the argument type `tr` (mirror of fake_value)"""
+    k = tr[0]
+    if k == "c":
+        c = U.classes[tr[1]]
+        special = {int: "0", str: "'x'", float: "0.5", bool: "True", type: "int", bytes: "b''", type(None): "None"}
+        if c in special:
+            return special[c]
+        if c is np.ndarray:
+            return "numpy.zeros(())"
+        n = cname(c)
+        if n == "funsor.domains.RealsType":
+            return "funsor.domains.Real"
+        if n == "funsor.domains.BintType":
+            return "funsor.domains.Bint[2]"
+        return f"object.__new__({pyrepr(U, tr)})"
+    if k == "g":
+        return f"object.__new__({pyrepr(U, tr)})"
+    if k in ("tb",):
+        return "()"
+    if k == "t":
+        return "(" + "".join(pysrc_value(U, x) + ", " for x in tr[1]) + ")"
+    if k == "fb":
+        return "frozenset()"
+    if k == "f":
+        return f"frozenset([{pysrc_value(U, tr[1])}])"
+    raise Unsupported(tr)
+
+
+PY_CONTAINER = """
+# replay for C16: throw-away registry '{name}', first-use order {order}
+import typing, itertools
+from typing import Any, Tuple, FrozenSet, Union
+import numpy
+import funsor; funsor.set_backend("numpy")
+import funsor.ops, funsor.ops.op, funsor.terms, funsor.tensor, funsor.domains, funsor.gaussian, funsor.delta, funsor.cnf
+from funsor.registry import KeyedRegistry
+from funsor.typing import deep_type, typing_wrap
+KEY = {key}
+PATTERNS = [{patterns}]
+SUBJECTS = [{subjects}]
+def fresh():
+    r = KeyedRegistry(default=lambda *a: "default")
+    for i, p in enumerate(PATTERNS):
+        r.register(KEY, *p)((lambda i: (lambda *a: i))(i))
+    return r
+def history_free(args):
+    d = fresh().registry[KEY]
+    return d.dispatch(*map(typing_wrap, map(deep_type, args)))(*args)
+FAILS = False
+for order in itertools.permutations(range(len(SUBJECTS))):
+    r = fresh()
+    for j in order:
+        got = r.dispatch(KEY, *SUBJECTS[j])(*SUBJECTS[j])
+        if got != history_free(SUBJECTS[j]):
+            print("order", order, "subject", j, "got rule", got, "history-free dispatch gives", history_free(SUBJECTS[j]))
+            FAILS = True
+"""
+
+
+def container_scenarios(U):
+    import funsor.ops as ops
+    from funsor.terms import Funsor, Number, Variable, Reduce, Unary, Stack
+    from funsor.tensor import Tensor
+    import funsor.domains as Dm
+    c = lambda x: ("c", U.ids[x])            # noqa: E731
+    g = lambda x, *a: ("g", U.ids[x], tuple(a))   # noqa: E731
+    assoc, addop, fun = c(ops.AssociativeOp), c(ops.AddOp), g(Funsor)
+    s_, bint, reals, nd = c(str), c(Dm.BintType), c(Dm.RealsType), c(np.ndarray)
+    vb, vr, v0 = g(Variable, s_, bint), g(Variable, s_, reals), g(Variable)
+    ten = g(Tensor, nd, ("t", (("t", (s_, bint)),)), s_)
+    num = g(Number, c(int), s_)
+    fsC, tupC = c(frozenset), c(tuple)
+    red = lambda fs: g(Reduce, addop, ten, fs)      # noqa: E731
+    return [
+        dict(name="frozenset-elements", key=Reduce,
+             patterns=[(assoc, fun, fsC), (assoc, fun, ("f", vb)), (assoc, fun, ("f", vr))],
+             subjects=[(addop, ten, ("f", vb)), (addop, ten, ("f", vr)), (addop, ten, ("f", v0)), (addop, ten, ("fb",))]),
+        dict(name="variadic-tuple-elements", key=Stack,
+             patterns=[(s_, tupC), (s_, ("tv", g(Tensor))), (s_, ("tv", g(Number))), (s_, ("tv", ("u", (g(Number), g(Tensor)))))],
+             subjects=[(s_, ("t", (ten, ten))), (s_, ("t", (num, num))), (s_, ("t", (num, ten))), (s_, ("t", (vb, ten)))]),
+        dict(name="fixed-tuple-elements", key=Stack,
+             patterns=[(s_, tupC), (s_, ("t", (g(Tensor), g(Number)))), (s_, ("t", (g(Number), g(Tensor)))), (s_, ("t", (g(Funsor), g(Funsor))))],
+             subjects=[(s_, ("t", (ten, num))), (s_, ("t", (num, ten))), (s_, ("t", (ten, ten))), (s_, ("t", (ten, num, num)))]),
+        dict(name="nested-class-parameter-frozenset", key=Unary,
+             patterns=[(c(ops.op.Op), g(Reduce)), (c(ops.op.Op), g(Reduce, assoc, fun, ("f", vb))),
+                       (c(ops.op.Op), g(Reduce, assoc, fun, ("f", vr)))],
+             subjects=[(c(ops.ExpOp), red(("f", vb))), (c(ops.ExpOp), red(("f", vr))), (c(ops.ExpOp), red(("f", v0)))]),
+        dict(name="frozenset-of-tuples", key=Reduce,
+             patterns=[(assoc, fsC), (assoc, ("f", ("t", (s_, g(Tensor))))), (assoc, ("f", ("t", (s_, g(Number))))), (assoc, ("f", tupC))],
+             subjects=[(addop, ("f", ("t", (s_, ten)))), (addop, ("f", ("t", (s_, num)))), (addop, ("f", ("t", (s_, vb)))), (addop, ("f", s_))]),
+    ]
+
+
+def part_container_registries(ctx, U, use_driver=True):
+    """fresh public KeyedRegistry per first-use order; argument tuples that differ only inside a
+    container; cached entry point vs history-free dispatch on the deep types (real) vs the model"""
+    rng = ctx.rng
+    for sc in container_scenarios(U):
+        key = sc["key"]
+        pats = [tuple(U.dec(canon(U, t)) for t in p) for p in sc["patterns"]]
+        subj_trees = [tuple(canon(U, t) for t in sj) for sj in sc["subjects"]]
+        try:
+            subjects = [tuple(fake_value(U, t)[0] for t in sj) for sj in subj_trees]
+        except Unsupported as e:
+            ctx.infra_errors.append(f"container scenario {sc['name']}: cannot fabricate {e}")
+            return
+        for sj, tr in zip(subjects, subj_trees):
+            if tuple(U.enc(deep_type(a)) for a in sj) != tr:
+                ctx.infra_errors.append(f"container scenario {sc['name']}: fabricated value has another deep type")
+                return
+
+        def fresh():
+            r = KeyedRegistry(default=lambda *a: None)
+            for i, p in enumerate(pats):
+                r.register(key, *p)((lambda i: (lambda *a: i))(i))
+            return r
+        ref = fresh()
+        d = ref.registry[key]
+        sigs = list(d.funcs)
+        with warnings.catch_warnings():
+            warnings.simplefilter("ignore")
+            order0 = [sigs.index(x) for x in d.ordering]
+        enc = [U.enc_sig(x) for x in sigs]
+        # history-free answers: real dispatch on the deep types, and the model
+        want = []
+        for sj in subjects:
+            f = d.dispatch(*map(typing_wrap, map(deep_type, sj)))
+            want.append(getattr(f, "default", f)(*sj) if f is not None else None)
+        if use_driver:
+            reqs = [f"C16 dispatchx ({' '.join(sigsx(e) for e in enc)}) ({' '.join(map(str, order0))}) (" +
+                    " ".join("(w " + tsx(t) + ")" if t[0] != "g" else "(n " + tsx(t) + ")" for t in tr) + ")"
+                    for tr in subj_trees]
+            ans = ctx.driver.ask(reqs)
+            for j, a in enumerate(ans):
+                p = parse_sx("(" + a[3:] + ")") if a.startswith("ok ") else None
+                if p is None:
+                    ctx.infra_errors.append(f"driver: {a}")
+                    return
+                mi = int(p[0][1]) if not isinstance(p[0], str) else None
+                mf = d.funcs[sigs[mi]] if mi is not None else None
+                mres = getattr(mf, "default", mf)(*subjects[j]) if mf is not None else None
+                if mres != want[j]:
+                    ctx.fail("correspondence", "C16.dispatch-vs-model",
+                             witness=dict(registry=sc["name"], subject=[tshow(U, t) for t in subj_trees[j]], real=want[j], model=a))
+                    return
+                if not [x for x in p[3]]:
+                    ctx.infra_errors.append(f"container scenario {sc['name']} subject {j}: no least matching pattern (scenario ill-designed)")
+                    return
+        replay = PY_CONTAINER.format(name=sc["name"], order="(all)", key=cname(key),
+                                     patterns=", ".join("(" + "".join(pyrepr(U, canon(U, t)) + ", " for t in p) + ")" for p in sc["patterns"]),
+                                     subjects=", ".join("(" + "".join(pysrc_value(U, t) + ", " for t in tr) + ")" for tr in subj_trees))
+        perms = list(itertools.permutations(range(len(subjects))))
+        for mode in ("no-clearing", "clear-between", "repeat-each"):
+            for order in perms:
+                r = fresh()
+                seq = list(order) if mode != "repeat-each" else [j for j in order for _ in (0, 1)] + list(order)
+                for j in seq:
+                    if mode == "clear-between":
+                        r.registry[key]._cache.clear()
+                    f = r.dispatch(key, *subjects[j])
+                    got = f(*subjects[j])
+                    ctx.count("container:dispatches")
+                    if got != want[j]:
+                        ctx.fail("input", "C16.dispatch-depends-on-history",
+                                 witness=dict(registry=sc["name"], mode=mode, first_use_order=[[tshow(U, t) for t in subj_trees[i]] for i in order],
+                                              subject=[tshow(U, t) for t in subj_trees[j]],
+                                              patterns=[[tshow(U, t) for t in p] for p in sc["patterns"]],
+                                              got_rule=got, history_free_rule=want[j]),
+                                 expected=f"rule #{want[j]} (dispatch on the deep types, fresh cache)", got=f"rule #{got}", python=replay)
+                        return
+                # the cache must be keyed by the deep types of the arguments
+                keys = set(r.registry[key]._cache)
+                exp = {tuple(map(typing_wrap, map(deep_type, subjects[j]))) for j in order}
+                if mode == "no-clearing" and keys != exp:
+                    ctx.fail("input", "C16.cache-key-does-not-determine-types",
+                             witness=dict(registry=sc["name"], cache_keys=sorted(map(repr, keys))[:6], deep_types=sorted(map(repr, exp))[:6]),
+                             expected="one cache entry per distinct tuple of deep types", got=f"{len(keys)} keys for {len(exp)} type tuples", python=replay)
+                    return
+            ctx.case(sample=dict(registry=sc["name"], mode=mode, orders=len(perms)) if mode == "no-clearing" else None,
+                     nontrivial_key=("container", sc["name"], mode))
+        ctx.count("container:scenarios")
+
+
 def part_known_ambiguity(ctx, U, D, kf_cases):
     """dedicated stream for KF-precondition-ambiguous-patterns: two registered patterns overlap, neither
     is more specific, nothing more specific covers the overlap"""
@@ -2195,6 +2470,7 @@ def correspond(ctx):
     part_values(ctx, U, D, clean, observed)
     part_rebuilt_terms(ctx, U, D, clean)
     part_supercedes(ctx, U, D)
+    part_container_registries(ctx, U)
     kf_cases = []
     r = part_dispatch(ctx, U, D, observed, kf_cases=kf_cases)
     part_known_ambiguity(ctx, U, D, kf_cases)
@@ -2234,6 +2510,9 @@ def search(ctx, broken):
             return
         if clean:
             part_rebuilt_terms(ctx, U, D, clean, use_driver=False)
+        if found():
+            return
+        part_container_registries(ctx, U, use_driver=False)
         if found():
             return
         r = part_dispatch(ctx, U, D, observed, use_driver=False)
